@@ -3533,6 +3533,22 @@ class CppEmitter(Visitor):
         rhs = self._emit_at(stmt.expr, level, ctx)
         self.writer.add_line(f'{chain} = {rhs};')
 
+    def _captured(self, e: Expr, ctx) -> tuple[str, list[str]]:
+        """Visit *e*, taking back whatever statements it put out: the C++
+        expression, and those lines (relative to the current indentation) for
+        the caller to place where *e* is actually evaluated."""
+        lines = self.writer._lines
+        start = len(lines)
+        expr = self._visit_expr(e, ctx)
+        taken = lines[start:]
+        del lines[start:]
+        pad = '    ' * self.writer._depth
+        return expr, [ln[len(pad):] if ln.startswith(pad) else ln for ln in taken]
+
+    def _replay(self, lines: list[str]) -> None:
+        for ln in lines:
+            self.writer.add_line(ln)
+
     def _emit_guarded_block(self, keyword: str, cond, body, ctx) -> None:
         """``<keyword> (<cond>) { <body> }``."""
         self.writer.add_line(f'{keyword} ({self._visit_expr(cond, ctx)}) {{')
@@ -3613,7 +3629,22 @@ class CppEmitter(Visitor):
         self.writer.add_line('}')
 
     def _visit_while(self, stmt: WhileStmt, ctx):
-        self._emit_guarded_block('while', stmt.cond, stmt.body, ctx)
+        cond, cond_stmts = self._captured(stmt.cond, ctx)
+        if not cond_stmts:
+            self.writer.add_line(f'while ({cond}) {{')
+        else:
+            # The test needs statements of its own (a temporary for an operand
+            # of `min`, say): they run again before every iteration, not once
+            # ahead of the loop.
+            self.writer.add_line('while (true) {')
+            self.writer.indent()
+            self._replay(cond_stmts)
+            self.writer.add_line(f'if (!({cond})) break;')
+            self.writer.dedent()
+        self.writer.indent()
+        self._visit_block(stmt.body, ctx)
+        self.writer.dedent()
+        self.writer.add_line('}')
 
     def _concrete_int_of(self, e: Expr) -> int | None:
         """Concrete integer value of *e* per format inference, or ``None``."""
